@@ -199,6 +199,32 @@ def run(ck):
         trees.append(t)
         ck.count('fitted trees in the pool')
 
+    # ensembles: the configured number of leaves caps EACH tree's mixture (the statement is per tree) — an ensemble of two trees predicts the mean of what each tree predicts alone
+    erng = np.random.default_rng(ck.seed + 909)
+    for i in range(ck.n(2, 6)):
+        ne = 200; Xe_ = xr.make_X('random', ne, d, erng); ye_ = xr.make_y('reg', Xe_, erng); Xve = xr.make_X('random', 40, d, erng); yve = xr.make_y('reg', Xve, erng)
+        xr.seed_all(990 + i)
+        capE = [12, 9][i % 2]
+        fe = xr.xRFM(rfm_params=xr.default_rfm_params(iters=0, reg=1e-2), max_leaf_size=14, n_trees=2, verbose=False, use_temperature_tuning=False, split_method='random_pca',
+                     split_temperature=[3.0, 8.0][i % 2], keep_weight_frac_in_predict=0.99, max_leaf_count_in_ensemble=capE, refill_size=5)
+        with xr.quiet():
+            fe.fit(torch.tensor(Xe_), torch.tensor(ye_), torch.tensor(Xve), torch.tensor(yve))
+            Qe = torch.tensor(xr.make_X('random', 12, d, erng))
+            got_e = np.asarray(fe.predict(Qe), dtype=np.float64)
+            singles = []
+            all_trees = fe.trees
+            for t_ in all_trees:
+                fe.trees = [t_]; singles.append(np.asarray(fe.predict(Qe), dtype=np.float64))
+            fe.trees = all_trees
+        ck.case(dict(kind='soft ensemble', i=i, trees=len(all_trees), cap=capE), nontrivial=len(all_trees) >= 2); ck.count(f'soft ensemble of {len(all_trees)} trees')
+        if len(all_trees) >= 2:
+            want_e = np.mean(singles, axis=0); dev_e = float(np.max(np.abs(got_e - want_e)))
+            if dev_e > 1e-5 * (1 + float(np.abs(want_e).max())):
+                r = int(np.argmax(np.abs(got_e - want_e).reshape(len(Qe), -1).max(1)))
+                ck.violation(f'soft prediction of a {len(all_trees)}-tree ensemble (leaf cap {capE}, keep 0.99, T={fe.split_temperature}) differs by {dev_e:.3g} from the mean of the trees\' own soft predictions '
+                             f'under the same cap (row {Qe[r].tolist()}: ensemble {got_e[r].tolist()}, mean of trees {want_e[r].tolist()})', dict(kind='soft ensemble', i=i, cap=capE, dev=dev_e, row=Qe[r].tolist()),
+                             key=json.dumps(dict(site='soft-ensemble')))
+
     # a tree that never split, queried with a positive temperature: the mixture over one leaf is that leaf (all weight, nothing truncated)
     for i in range(2):
         n = 40
